@@ -68,7 +68,7 @@ def ValidFormat (O : Oracle) (mt : Str) : Format → Prop
     pt < 256
     ∧ select (getCodecAndClock rm).1 (getCodecAndClock rm).2 pt = .generic
     ∧ findClockRate pt rm (mt == b!"application") = some clk
-    ∧ (∀ c ∈ rm, isAscii c = true) ∧ (∀ c, rm.head? = some c → isSpace c = false) ∧ (∀ c, rm.getLast? = some c → isSpace c = false)
+    ∧ (∀ c ∈ rm, isAscii c = true ∧ (isSpace c = true → c = 32)) ∧ (∀ c, rm.head? = some c → isSpace c = false) ∧ (∀ c, rm.getLast? = some c → isSpace c = false)
     ∧ (∀ kv ∈ fm, GenKeyOk kv.1 ∧ GenValOk kv.2) ∧ KeysSorted fm
 
 /-- the `unmarshalContext` that `format.Unmarshal` builds from what `Media.Marshal` wrote for `f`
